@@ -87,6 +87,12 @@ def run(args, rep):
     for k, c in enumerate(cases):
         for on, o in optsets:
             jobs.append({'id': 'h%d|%s' % (k, on), 'uses': c['uses'], 'lit': c['lit'], 'opts': o, 'home': c['home']})
+            if on in ('default', 'rg'):
+                # the same case in the skeleton whose class attributes are called like the aliases the hoister hands out
+                jobs.append({'id': 'h%d|%s+adv' % (k, on), 'uses': c['uses'], 'lit': c['lit'], 'opts': o, 'home': c['home'], 'variant': 'adv'})
+            if on == 'default' and k % 3 == 0:
+                # two separate future statements, kept separate (combine_imports off): the annotation place is still text
+                jobs.append({'id': 'h%d|nocombine+fut2' % k, 'uses': c['uses'], 'lit': c['lit'], 'opts': dict(o, combine_imports=False), 'home': c['home'], 'variant': 'fut2'})
             if c['lit'] in hoistgen.SPELL['folded']:
                 # the same case with every occurrence spelled as an expression that constant folding turns into the literal
                 jobs.append({'id': 'h%d|%s+folded' % (k, on), 'uses': c['uses'], 'lit': c['lit'], 'opts': o, 'home': c['home'], 'spell': 'folded'})
